@@ -79,7 +79,7 @@ theorem time_monotone (i : Inst) (hwf : WF i) (s : State) (h : Reach env i s) (a
         have := (nextTime_some ht').1
         omega
   obtain ⟨hinv, _⟩ := hinv2
-  simp only [env, step]
+  simp only [env, step_eq]
   cases hd : s.done with
   | true => simp
   | false =>
